@@ -99,3 +99,45 @@ for _cls, _closure in (("IterableCoercerProvider", "iterable_coercer"), ("DictCo
                  "copying-coercer": f"implies(returned, is_closure(result, '{_closure}'))",
              },
              cover=["returned", "raised"])
+
+
+# ---- Optional[S] -> Optional[D]: None stays None, every other value goes through the coercer of the wrapped types ------------
+def _optional_closure_scenarios(mod):
+    out = []
+    for label, data in (("None", None), ("zero", 0), ("empty-list", []), ("empty-dict", {}), ("empty-str", ""), ("False", False), ("value", [1])):
+        def factory(data=data):
+            made = []
+
+            def inner(d, ctx):
+                made.append(("inner", d, ctx))
+                return made[-1]
+
+            class Med:
+                def mandatory_provide(self, request, error_describer=None):
+                    return inner
+
+            class Req:
+                def append_loc(self, **kw):
+                    return self
+            from typing import List, Optional
+            from adaptix._internal.type_tools import normalize_type
+            prov = mod.OptionalCoercerProvider()
+            clo = prov._provide_coercer_norm_types(Med(), Req(), normalize_type(Optional[List[int]]), normalize_type(Optional[List[str]]))
+            return (lambda data, ctx: clo(data, ctx)), {"data": data, "ctx": "CTX"}, {"not_none_coercer": inner, "res": lambda f, p: made[-1] if made else object(),
+                                                                                     "pair": lambda a, b: (a, b)}
+        out.append((label, factory))
+    return out
+
+
+contract(F, "OptionalCoercerProvider._provide_coercer_norm_types", name=f"{F}:OptionalCoercerProvider._provide_coercer_norm_types[closure]",
+         props=["C13", "C14", "C20"],
+         params={"self": ("constf", lambda m: m.OptionalCoercerProvider()), **COPY_PARAMS}, methods=COPY_METHODS,
+         opaque={"_get_not_none": (lambda m: m.OptionalCoercerProvider._get_not_none, [])},
+         then={"data": "D", "ctx": "sym"}, decl_disciplines={"mcall_mandatory_provide": "ANY"},
+         post={
+             "none-stays-none": "implies(data is None, returned and result is None)",
+             # NOT a truthiness test: 0, [], {} and '' are values
+             "value-goes-through-inner-coercer": ("implies(not (data is None) and returned, result is res(not_none_coercer, pair(data, ctx)) or "
+                                                  "result is data)"),
+         },
+         scenarios=_optional_closure_scenarios, cover=["returned"])
